@@ -100,10 +100,13 @@ func (i *imports) Imports() []Import {
 }
 
 func (i *imports) decorateImport(imp string) string {
-	for shortcut, path := range i.prefixes {
-		if strings.Index(imp, shortcut) == 0 {
-			return strings.Replace(imp, shortcut, path, 1)
+	// an alias stands for a whole first path segment, never for a part of it
+	first, rest, hasRest := strings.Cut(imp, "/")
+	if path, ok := i.prefixes[first]; ok {
+		if hasRest {
+			return path + "/" + rest
 		}
+		return path
 	}
 
 	return imp
